@@ -21,7 +21,7 @@ EXPLANATION = (
     "maps) and must equal the closure-update equations that keep ancestors = transitive closure of parents and descendants = its "
     "inverse; the query functions read the component they are named after and isa? goes through ancestors."
 )
-DECIDES = "write=>reset pairing, staleness-check dominance, cache fill sources, hierarchy-by-reference, derive/underive update equations (consistency of parents/ancestors/descendants/isa?), best-match search = unique strict dominator in every table order (exhaustive over all relational structures on three keys, interpreted without importing the repository)"
+DECIDES = "write=>reset pairing, staleness-check dominance, cache fill sources and every cache store under the lock, isa? vector lengths, class ancestors inheriting derives, defmulti default pass-through, hierarchy-by-reference, derive/underive update equations (consistency of parents/ancestors/descendants/isa?), best-match search = unique strict dominator in every table order (exhaustive over all relational structures on three keys, interpreted without importing the repository)"
 DECLINED = "method tables with more than three mutually related matching keys (the exhaustive evaluation stops at three); class tags whose superclasses carry derived ancestors"
 TRUSTED = ["threading.Lock semantics", "persistent maps are values (C04)"]
 ASSUMPTIONS = []
